@@ -213,6 +213,23 @@ def wire(R, RID='C04.wire'):
                 # the field is computed through intermediate locals (flags = b1 >> 4; fin = flags >> 3)
                 o2 = subst_locals(R, g, on, o)
                 bits = _bits(o2, {b1, b2})
+            if bits is None and isinstance(o, ast.Name):
+                # decoded through a table indexed by the header byte:  fin, rsv1, .. = _FIELDS[b1]  (the table is evaluated)
+                to = rd.tuple_origin(on, o)
+                if to is not None and isinstance(to[0], ast.Subscript) and isinstance(to[0].slice, ast.Name) \
+                        and to[0].slice.id in (b1, b2):
+                    tv = fold(R, to[0].value, g.ctx)
+                    try:
+                        col = [tv[v][to[1]] for v in range(256)] if tv is not None and len(tv) == 256 else None
+                    except Exception:
+                        col = None
+                    if col is not None:
+                        for sh_ in range(8):
+                            for w_ in range(1, 9 - sh_):
+                                mk_ = (1 << w_) - 1
+                                if bits is None and all(col[v] == ((v >> sh_) & mk_) for v in range(256)):
+                                    bits = (to[0].slice.id, sh_, mk_)
+                        on = to[2]
             detail += ' = %s' % U(o)
             if bits is not None:
                 s2, sh2, eff = bits
